@@ -170,7 +170,7 @@ def run_case(ns, mon, c):
         extra_t = ns.Tensor(np.asarray(extra, dtype=[np.int64, np.int32][int(rng.integers(2))]))
     if op == "bce_with_logits":
         extra = (rng.uniform(0, 1, x.shape) if c["tclass"] == "prob" else rng.integers(0, 2, x.shape).astype(np.float64)).astype(dt)
-        extra_t = ns.Tensor(extra.copy())
+        extra_t = ns.Tensor(extra.copy(), requires_grad=bool(c["seed"] % 2))       # soft targets may be learnable: their gradient is -x * upstream
         extra = extra.astype(np.float64)
     sig = f"{op}.{c['form']}"
     xt = ns.Tensor(x.copy(), requires_grad=True)
@@ -213,6 +213,13 @@ def run_case(ns, mon, c):
     judge("value", out.data, val)
     if grad is not None:
         judge("gradient", grad, gr, gscale=max(1.0, float(np.max(np.abs(g64)))))
+        if op == "bce_with_logits" and extra_t.requires_grad:
+            red = c["reduction"] if c["form"] == "module" else "none"
+            gt_want = -x64 * (g64 / x64.size if red == "mean" else g64)
+            if extra_t.grad is None:
+                viol.append(V(f"{sig}:target-gradient:missing", "a target that requires grad received no gradient"))
+            else:
+                judge("target-gradient", extra_t.grad.data, gt_want, gscale=max(1.0, float(np.max(np.abs(g64)))))
     args = {k: c[k] for k in ("dim", "reduction", "tclass") if k in c}
     key = (op, c["form"], c["dtype"], c["icl"], magc, json.dumps(args, sort_keys=True), len(c["shape"])) if mx >= 20 else None
     return {"key": key, "viol": viol + [v for v in mon.drain() if not v["sig"].startswith(("grad-dtype", "release"))], "counters": counters,
